@@ -310,7 +310,8 @@ def main():
         # a translation that failed is a broken obligation only for the properties that use it
         RELEVANT = {"consts": {"C06", "C11", "C05"}, "structure": {"C13", "C14"}, "abi": {"C15", "C07", "C04"},
                     "fns-nanbox": {"C06", "C11"}, "fns-logs": {"C05"}, "fns-state": {"C03", "C02"},
-                    "markers": {"C01", "C08", "C11"}, "writer": {"C02", "C03"}}
+                    "markers": {"C01", "C08", "C11"}, "writer": {"C02", "C03"},
+                    "read-entries": {"C01", "C08"}}
         rel_errors = [e for e in extract.get("errors", [])
                       if prop in RELEVANT.get(e.split(":")[0], {prop})]
         for e in rel_errors:
